@@ -8,8 +8,13 @@
 (* byte patterns and back, the specification never looks inside.  A chunk is       *)
 (*     [descr |-> <<base, order>>, rows |-> Seq(token)]        (Len(rows) >= 1)    *)
 (* where `base` names the field structure (names, types, shapes) and `order` the   *)
-(* byte order ("lt", "gt"; "na" once stored as text).  Two descrs are field-       *)
-(* compatible iff their bases are equal.                                           *)
+(* byte order ("na" once stored as text).  Byte order is a property of each FIELD, *)
+(* not of the table: the orders are "lt" / "gt" (every field little- / big-endian) *)
+(* and the mixed ones "vg" (the sub-array - vector / n-d - fields big-endian, the   *)
+(* scalar fields little-endian) and "sg" (the reverse): chunks whose non-native     *)
+(* fields are exactly one class of fields.  Two descrs are field-compatible iff     *)
+(* their bases are equal; the order never enters a text file (NormDescr): a chunk   *)
+(* of ANY order appended to a text file of its base is accepted, value-correct.     *)
 (*                                                                                *)
 (* files[p]   = [st, delim, hdr, descr, size, rows]                                *)
 (*      st    : "missing" | "blank" (exists, nothing written: truncated by an      *)
@@ -56,6 +61,8 @@ rsvars == <<files, handles, res>>
 WriteModes == {"w", "w+", "r+"}          \* the modes the library documents for writing
 AllModes   == WriteModes \cup {"r"}      \* a handle object can also be (re-)opened for reading only
 NoDescr    == <<"none", "na">>
+Orders     == {"lt", "gt", "vg", "sg"}   \* byte orders a chunk can come in (per field class, see above)
+MixedOrders == {"vg", "sg"}
 
 Missing == [st |-> "missing", delim |-> "none", hdr |-> "none", descr |-> NoDescr, size |-> 0, rows |-> <<>>]
 Blank   == [Missing EXCEPT !.st = "blank"]
@@ -225,6 +232,7 @@ FileOK(f) == /\ f.st \in {"missing", "blank", "ok"}
              /\ f.st = "ok" => (f.size = RowCount(f.rows) /\ Len(f.rows) >= 1 /\ f.descr # NoDescr)
              /\ f.st # "ok" => f = [Missing EXCEPT !.st = f.st]
              /\ (f.delim # "none") => f.descr[2] = "na"
+             /\ (f.st = "ok" /\ f.delim = "none") => f.descr[2] \in Orders
 
 \* the stored row count equals the number of stored rows, in every state
 SizeInv == \A p \in Paths : FileOK(files[p])
